@@ -80,7 +80,7 @@ def check_spec(acc, spec, tier):
     if U.n_assignments(spec) > 5000:
         return
     objs = list(range(nv)) if (nv <= 4 or tier == "thorough") else sorted({0, nv // 2, nv - 1})
-    cfgs = S.configs_for(spec, tier, full=fam in ("F4",))
+    cfgs = S.configs_for(spec, tier, full=fam in ("F4", "F7"))
     if tier == "quick" and fam == "F1":
         cfgs = cfgs[:1] + cfgs[4:5] + cfgs[2:3]
     for cfg in cfgs:
